@@ -12,10 +12,17 @@ Definition all_ok (rs : list result) : bool := forallb is_ok rs.
 Definition h_group_hardlink : list op := [MkGroup (b "/g"); MkGroup (b "/g/x"); HardLink (b "/h") (b "/g")].
 Lemma group_hardlink_refuted :
   names_ok go_cfg h_group_hardlink = true /\ all_ok (snd (go h_group_hardlink)) = true /\ all_ok (snd (sp h_group_hardlink)) = true /\
-  read_tree (fst (go h_group_hardlink)) <> spec_tree (fst (sp h_group_hardlink)) /\
-  read_tree (fst (go h_group_hardlink)) =
+  read_tree go_cfg (fst (go h_group_hardlink)) <> spec_tree (fst (sp h_group_hardlink)) /\
+  read_tree go_cfg (fst (go h_group_hardlink)) =
     Some (TNode 0 KGroup [(b "g", TNode 1 KGroup [(b "x", TNode 2 KGroup [])]); (b "h", TNode 1 KGroup [])]).
 Proof. vm_compute. repeat split; try reflexivity. discriminate. Qed.
+
+(* (1a) a hard link to an enclosing group: the reader's own-ancestor check makes Open fail *)
+Definition h_ancestor_link : list op := [MkGroup (b "/g"); MkGroup (b "/g/h"); HardLink (b "/g/h/up") (b "/g")].
+Lemma ancestor_link_refuted :
+  all_ok (snd (go h_ancestor_link)) = true /\ all_ok (snd (sp h_ancestor_link)) = true /\
+  read_tree go_cfg (fst (go h_ancestor_link)) = None.
+Proof. vm_compute. repeat split; reflexivity. Qed.
 
 (* (1b) fw.groups does not know the second path: creating under it is refused *)
 Definition h_alias_parent : list op := [MkGroup (b "/g"); HardLink (b "/h") (b "/g"); MkGroup (b "/h/x")].
@@ -27,7 +34,7 @@ Proof. vm_compute. split; reflexivity. Qed.
 Definition h_soft : list op := [MkDataset (b "/d"); SoftLink (b "/s") (b "/d")].
 Lemma soft_link_refuted :
   adm go_cfg s_empty h_soft = true /\ all_ok (snd (go h_soft)) = true /\
-  read_tree (fst (go h_soft)) = Some (TNode 0 KGroup [(b "d", TNode 1 KData []); (b "s", TNode 2 KGroup [])]) /\
+  read_tree go_cfg (fst (go h_soft)) = Some (TNode 0 KGroup [(b "d", TNode 1 KData []); (b "s", TNode 2 KGroup [])]) /\
   spec_tree (fst (sp h_soft)) = Some (TNode 0 KGroup [(b "d", TNode 1 KData []); (b "s", TNode 2 KSoft [])]).
 Proof. vm_compute. repeat split; reflexivity. Qed.
 
@@ -58,7 +65,7 @@ Proof. split; vm_compute; reflexivity. Qed.
 Definition h_trailing_slash : list op := [MkGroup (b "/a/"); MkGroup (b "/a/b"); MkGroup (b "/a//b")].
 Lemma trailing_slash_refuted :
   snd (gob h_trailing_slash) = [Ok; Err ENoParent; Ok] /\
-  read_tree (fst (gob h_trailing_slash)) = Some (TNode 0 KGroup [(b "a", TNode 1 KGroup [(b "b", TNode 3 KGroup [])])]).
+  read_tree base_cfg (fst (gob h_trailing_slash)) = Some (TNode 0 KGroup [(b "a", TNode 1 KGroup [(b "b", TNode 3 KGroup [])])]).
 Proof. split; vm_compute; reflexivity. Qed.
 
 (* (6) a hard link that fails in linkToParent (duplicate name, full group) leaves the target's stored
@@ -78,7 +85,7 @@ Proof.
 Qed.
 
 (* ---------------------------------------------------------------- with the three candidate repairs switched on *)
-Definition fixed_cfg : cfg := {| heap_cap := 256; snod_cap := 32; soft_max := 244;
+Definition fixed_cfg : cfg := {| heap_cap := 256; snod_cap := 32; soft_max := 244; max_depth := 1024;
                                  strict_names := true; canon_group_key := true; rc_rollback_fix := true |}.
 Definition gof (h : list op) := run (step fixed_cfg) (init fixed_cfg) h.
 
@@ -93,3 +100,13 @@ Proof. vm_compute. repeat split; reflexivity. Qed.
 Lemma no_dup_repaired : forall c h g names, strict_names c = true -> group_names (reach c h) g = Some names ->
   NoDup names /\ Forall (fun x => x <> None) names.
 Proof. intros c h g names S. apply no_dup_reach. unfold names_ok. rewrite S. reflexivity. Qed.
+
+(* not_too_deep: with the depth limit at 2, three nested groups cannot be read back *)
+Definition shallow_cfg : cfg := {| heap_cap := 256; snod_cap := 32; soft_max := 244; max_depth := 2;
+                                   strict_names := true; canon_group_key := true; rc_rollback_fix := true |}.
+Definition h_deep : list op := [MkGroup (b "/a"); MkGroup (b "/a/b"); MkGroup (b "/a/b/c"); MkGroup (b "/a/b/c/d")].
+Lemma too_deep_refuted :
+  adm shallow_cfg s_empty h_deep = true /\ all_ok (snd (run (step shallow_cfg) (init shallow_cfg) h_deep)) = true /\
+  read_tree shallow_cfg (fst (run (step shallow_cfg) (init shallow_cfg) h_deep)) = None /\
+  spec_tree (fst (run (spec_step shallow_cfg) s_empty h_deep)) <> None.
+Proof. vm_compute. repeat split; try reflexivity. discriminate. Qed.
